@@ -18,6 +18,46 @@ Open Scope Z_scope.
 """
 
 
+def extract_group_size(fn):
+    """QModuleMixin.__init__ -> def auto_group_size(weight): the body of
+    `if self.weight_qtype in (qint2, qint4):` with self.weight_group_size as a local"""
+    import ast as A
+
+    from py2coq import Untranslatable
+
+    target = None
+    for st in fn.body:
+        if isinstance(st, A.If) and A.unparse(st.test) == "self.weight_qtype in (qint2, qint4)":
+            target = st
+    if target is None or target.orelse:
+        raise Untranslatable("group-size block `if self.weight_qtype in (qint2, qint4):` not found in QModuleMixin.__init__")
+    # the attribute must be initialised to None right before
+    idx = fn.body.index(target)
+    prev = fn.body[idx - 1]
+    if A.unparse(prev) != "self.weight_group_size = None":
+        raise Untranslatable("self.weight_group_size = None does not precede the group-size block")
+
+    class R(A.NodeTransformer):
+        def visit_Attribute(self, node):
+            if isinstance(node.value, A.Name) and node.value.id == "self":
+                if node.attr in ("weight_group_size", "weight"):
+                    return A.copy_location(A.Name(id=node.attr, ctx=node.ctx), node)
+                raise Untranslatable(f"self.{node.attr} inside the group-size block")
+            return self.generic_visit(node)
+
+    body = [R().visit(x) for x in target.body]
+    init = A.parse("weight_group_size = None").body[0]
+    ret = A.parse("return weight_group_size").body[0]
+    new = A.FunctionDef(
+        name="auto_group_size",
+        args=A.arguments(posonlyargs=[], args=[A.arg(arg="weight")], kwonlyargs=[], kw_defaults=[], defaults=[]),
+        body=[init] + body + [ret],
+        decorator_list=[],
+        lineno=target.lineno,
+    )
+    return A.fix_missing_locations(new)
+
+
 # fixed glue (not derived from the source): how an Optimizer object is applied.  The two concrete
 # optimizer classes only override optimize(); __call__ comes from their family base class.
 GLUE = """Definition apply_sym_optimizer {F : Type} `{Num F} (o : option optkind) (base : tensor F) (bits : Z)
@@ -55,6 +95,7 @@ def generate(repo, out_path, only=None):
         (f"{q}/tensor/qweight.py", "quantize_weight", "quantize_weight", {"t": FT, "axis": OPT, "group_size": OPT, "optimizer": "optopt"}, "qw"),
         (f"{q}/tensor/qactivation.py", "quantize_activation", "quantize_activation", {"t": FT, "scale": FT}),
         (f"{q}/calibrate.py", "absmax_scale", "absmax_scale", {"base": FT, "axis": "optint"}),
+        (f"{q}/nn/qmodule.py", "QModuleMixin.__init__", "auto_group_size", {"weight": FT, "weight_group_size": OPT}, "gs"),
         (f"{q}/calibrate.py", "_updated_scale", "updated_scale", {"scale": FT, "new_scale": FT, "momentum": "pyfloat"}),
     ]
     errors = []
@@ -78,7 +119,9 @@ def generate(repo, out_path, only=None):
                 vocab["extra_binders"] = VOCAB["extra_binders"] + ["(optimize : tensor F -> Z -> option Z -> res (tensor F * tensor F))"]
             if variant == "qw":
                 vocab["wrap_qany"] = True
-        t, err = translate_function(path, qual, name, ptys, vocab)
+            if variant == "gs":
+                vocab["while_fuel"] = 8
+        t, err = translate_function(path, qual, name, ptys, vocab, rewrite=extract_group_size if variant == "gs" else None)
         text += t + "\n"
         if err:
             errors.append(f"{qual}: {err}")
